@@ -353,6 +353,12 @@ func (x *Exec) loopCallNames(fr *Frame, h int, li *loopInfo) map[string]bool {
 				case *ssa.Function:
 					out[externName(f)] = true
 					out[fnRelName(f)] = true
+					switch externName(f) {
+					case "(*os.File).WriteAt":
+						out["file.WriteAt"] = true
+					case "(*os.File).ReadAt":
+						out["file.ReadAt"] = true
+					}
 					if cc := x.contractFor(f); cc != nil {
 						out[cc.Func] = true
 					} else if f.Blocks != nil && inModule(f) && depth < 3 {
